@@ -283,7 +283,7 @@ struct Th {
     prio: i64,
     wake_timed_out: bool,
     /// Consecutive scheduling decisions at which this thread could have run
-    /// (not merely by a time-out firing) and was passed over.
+    /// (or had a time-out that could have fired) and was passed over.
     starved: u64,
 }
 
@@ -296,6 +296,8 @@ pub enum Abort {
     StepBudget,
     /// No stream activity for `stall_steps` steps.
     Stalled,
+    /// The watched flag was set and the run did not end within the bound.
+    Deadline,
     Requested,
 }
 
@@ -321,6 +323,11 @@ pub struct Inner {
     pub stamp: u64,
     pub last_move_step: u64,
     pub moved_total: u64,
+    /// Bounded-response watch: once the flag is set, the root must be done
+    /// within `watch_bound` further scheduling steps (fair strategies only).
+    pub watch: Option<Arc<std::sync::atomic::AtomicBool>>,
+    pub watch_bound: u64,
+    watch_step: Option<u64>,
 }
 
 impl Inner {
@@ -369,6 +376,9 @@ impl Sched {
                 stamp: 0,
                 last_move_step: 0,
                 moved_total: 0,
+                watch: None,
+                watch_bound: 0,
+                watch_step: None,
             }),
         });
         register(&s);
@@ -432,7 +442,7 @@ impl Sched {
         let aborted = self.lock().aborted;
         match r {
             Ok(v) => match aborted {
-                Some(Abort::Deadlock) | Some(Abort::StepBudget) | Some(Abort::Stalled) => Err(aborted.unwrap()),
+                Some(Abort::Deadlock) | Some(Abort::StepBudget) | Some(Abort::Stalled) | Some(Abort::Deadline) => Err(aborted.unwrap()),
                 _ => Ok(v),
             },
             Err(p) => {
@@ -549,6 +559,26 @@ impl Sched {
             }
             return Self::abort_exit(g);
         }
+        if g.watch_bound > 0 {
+            if g.watch_step.is_none() && g.watch.as_ref().is_some_and(|w| w.load(std::sync::atomic::Ordering::SeqCst)) {
+                g.watch_step = Some(g.steps);
+            }
+            if g.watch_step.is_some_and(|w| g.steps - w > g.watch_bound) {
+                g.aborted = Some(Abort::Deadline);
+                g.deadlock_info = g
+                    .threads
+                    .iter()
+                    .enumerate()
+                    .filter(|(_, t)| t.state != St::Exited)
+                    .map(|(i, t)| format!("{}:{}={:?}", i, t.name, t.state))
+                    .collect::<Vec<_>>()
+                    .join(", ");
+                for t in &g.threads {
+                    t.cv.notify_all();
+                }
+                return Self::abort_exit(g);
+            }
+        }
         if g.steps > g.cfg.max_steps {
             g.aborted = Some(Abort::StepBudget);
             for t in &g.threads {
@@ -654,7 +684,7 @@ impl Sched {
             cands
                 .iter()
                 .enumerate()
-                .filter(|(_, c)| c.1 != CandKind::Timeout && g.threads[c.0].starved > FAIR_WINDOW)
+                .filter(|(_, c)| g.threads[c.0].starved > if c.1 == CandKind::Timeout { 3 * FAIR_WINDOW } else { FAIR_WINDOW })
                 .max_by_key(|(_, c)| (g.threads[c.0].starved, std::cmp::Reverse(c.0)))
                 .map(|(i, _)| i)
         } else {
@@ -669,7 +699,9 @@ impl Sched {
         };
         let (chosen, kind) = cands[idx.min(cands.len() - 1)];
         {
-            let passed: Vec<usize> = cands.iter().filter(|c| c.1 != CandKind::Timeout && c.0 != chosen).map(|c| c.0).collect();
+            // Timed waiters count too: real time passes while others run, so a
+            // time-out cannot be put off for ever either (three windows).
+            let passed: Vec<usize> = cands.iter().filter(|c| c.0 != chosen).map(|c| c.0).collect();
             for (tid, t) in g.threads.iter_mut().enumerate() {
                 if passed.contains(&tid) {
                     t.starved += 1;
@@ -996,6 +1028,13 @@ pub fn abort_violation(prop: &str, a: Abort, g: &Inner, fair: bool) -> Option<Vi
             format!(
                 "no sample moved on any stream for {} scheduler steps under a fair strategy, threads still alive: {}",
                 g.cfg.stall_steps, g.deadlock_info
+            ),
+        )),
+        Abort::Deadline if fair => Some(Violation::new(
+            format!("{prop}:no-return-after-failure"),
+            format!(
+                "run() had not returned {} scheduler steps after a block's work() failed (fair strategy), threads still alive: {}",
+                g.watch_bound, g.deadlock_info
             ),
         )),
         Abort::StepBudget if fair && g.cfg.stall_steps == 0 => Some(Violation::new(
